@@ -289,7 +289,8 @@ func genName0(rng *rand.Rand, title string, earlier []Entry) string {
 	case r < 73:
 		return pick(rng, []string{
 			join(title, "d/../x"), join(title, "../x"), "../x", join(title, "d/s/../../victim"), join(title, "d/s/../../../victim"),
-			join(title, "..", title, "x"), dots(1+rng.IntN(3)) + "/victim", join(title, "d/o/../../../victim")})
+			join(title, "..", title, "x"), dots(1+rng.IntN(3)) + "/victim", join(title, "d/o/../../../victim"),
+			"./" + pick(rng, nameSegs) + "/" + dots(2+rng.IntN(3)) + "/" + pick(rng, tails), "./d/../../../victim", "./x/../../victim", "./" + dots(1) + "/x"})
 	case r < 80:
 		if strings.HasPrefix(title, "$") {
 			return join(title, segs(1+rng.IntN(2)))
